@@ -329,3 +329,51 @@ def r7(rr, repo):
             same = any(isinstance(s.value, ast.JoinedStr) and any(isinstance(t, ast.Name) and t.id == U(n.value) for t in s.targets) for s in sib) or U(n.value).startswith("f'ipc://")
             rr.ob('an allocated ipc output and the source given to the consumer are the same ipc name (built from the producer id)', same and 'id_config.id' in txt, cmod, n, witness=txt[:200], key='alloc-ipc-pair')
     rr.floor('allocated-output sites', n_ok, 2, cmod, pf)
+
+
+@rule('C12.R8', "every spelling of a parameter without a value records the parameter: '--sources', '--sources=' and '--sources \"\"' all reach the configuration (as present-without-value), so that an explicitly "
+                "empty --sources= / --outputs= is seen by the auto-chaining loop; the option parser has no path that drops a well-formed option")
+def r8(rr, repo):
+    mod, pf = repo.find(f'{CLI}::parse_filters')
+    _, ppv = repo.find(f'{CLI}::parse_filters.parse_param_value')
+    rets = [r for r in walk_scope(ppv) if isinstance(r, ast.Return)]
+    falls_off = not isinstance(ppv.body[-1], (ast.Return, ast.Raise)) and not (isinstance(ppv.body[-1], ast.If) and ppv.body[-1].orelse)
+    rr.floor('returns of parse_param_value', len(rets), 4, mod, ppv)
+    for r in rets:
+        v = r.value
+        drops = v is None or (isinstance(v, ast.Tuple) and v.elts and isinstance(v.elts[0], ast.Constant) and v.elts[0].value is None) or (isinstance(v, ast.Constant) and v.value is None)
+        rr.ob('parse_param_value returns (parameter, value) - never the "skip this option" pair', not drops, mod, r, witness=U(r)[:80] + '  under ' + ' && '.join(('' if pol else 'not ') + U(t)[:40] for t, pol in q.guards_of(r, stop=ppv))[:160],
+              key=f'param-dropped|{" && ".join(("" if pol else "not ") + U(t)[:30] for t, pol in q.guards_of(r, stop=ppv))[:80]}')
+    rr.ob('parse_param_value ends in a return on every path', not falls_off, mod, ppv.body[-1], key='param-falls-off')
+    # the empty-value spellings return the same marker as the bare switch
+    bare = [U(r.value.elts[1]) for r in rets if isinstance(r.value, ast.Tuple) and len(r.value.elts) == 2 and not any(isinstance(c, ast.Call) for c in ast.walk(r.value.elts[1])) and U(r.value.elts[1]) != 'False']
+    rr.ob("'--p=', '--p \"\"' and a bare '--p' are recorded alike (present, no value)", len(bare) >= 3 and len(set(bare)) == 1, mod, ppv, witness=f'value-less returns: {bare}', key='param-empty-forms')
+    # ... and the marker is what the later passes turn into "explicitly empty"
+    marker = bare[0] if bare else 'True'
+    conv = [n for n in walk_scope(pf) if isinstance(n, ast.If) and U(n.test).replace(' ', '') in (f'config.sources is {marker}'.replace(' ', ''), f'config.outputs is {marker}'.replace(' ', ''))]
+    rr.ob('the value-less marker of sources / outputs is turned into an explicit empty setting before wiring', len(conv) == 2, mod, conv[0] if conv else pf, witness=f'{len(conv)} conversions of `config.<key> is {marker}`', key='param-empty-converted')
+
+
+@rule('C12.R9', "an automatically allocated ipc output is not already bound: like the tcp allocator (which starts above the highest port in use), the ipc allocator looks the new name up in the set of 'ipc://' outputs "
+                "the list already contains - user-given ones and earlier allocations - and records what it hands out")
+def r9(rr, repo):
+    mod, pf = repo.find(f'{CLI}::parse_filters')
+    allocs = [n for n in ast.walk(pf) if isinstance(n, ast.JoinedStr) and n.values and isinstance(n.values[0], ast.Constant) and str(n.values[0].value).startswith('ipc://')]
+    rr.floor("allocations of an 'ipc://<id>' output", len(allocs), 1, mod, pf)
+    for a in allocs:
+        st = q.enclosing_stmt(a)
+        tgt = U(st.targets[-1]) if isinstance(st, ast.Assign) else None
+        from .zmq import stmt_list_containing
+        _, lst, idx = stmt_list_containing(st)
+        after = lst[idx + 1:]
+        used = None
+        for n in after:
+            if isinstance(n, ast.While) and isinstance(n.test, ast.Compare) and isinstance(n.test.ops[0], ast.In) and U(n.test.left) == tgt:
+                used = U(n.test.comparators[0])
+            if isinstance(n, ast.If) and isinstance(n.test, ast.Compare) and isinstance(n.test.ops[0], ast.In) and U(n.test.left) == tgt and any(isinstance(x, ast.Raise) for x in n.body):
+                used = U(n.test.comparators[0])
+        recorded = used is not None and any(isinstance(c, ast.Call) and U(c.func) == f'{used}.add' and U(c.args[0]) == tgt for n in after for c in ast.walk(n))
+        fed = used is not None and any(isinstance(c, ast.Call) and U(c.func) == f'{used}.add' and q.enclosing_stmt(c).lineno < st.lineno and any('ipc://' in U(t) for t, pol in q.guards_of(c, stop=pf)) for c in q.calls_in(pf))
+        rr.ob("the allocated ipc name is looked up in the set of ipc outputs already bound (and changed or refused on a clash)", used is not None, mod, st, witness=f'{U(st)[:80]}; looked up in: {used}', key='ipc-alloc-checked')
+        if used is not None:
+            rr.ob('that set holds the user-given ipc outputs and every earlier allocation', recorded and fed, mod, st, witness=f'user-given ipc outputs added: {fed}; allocation recorded: {recorded}', key='ipc-alloc-set-complete')
